@@ -432,6 +432,7 @@ XConstraint(sd) ==
   LET v == Pick(sd, XVars) IN ":- " \o XLit(Nx(sd), v, 2) \o ", q(" \o v \o "), " \o XLit(Mix(sd, 2), v, 2) \o "."
 XProgram(sd) ==
   LET c == Val(sd) % 100
+      \* without its rule aux occurs in bodies only (an undefined private predicate)
       a == IF c % 5 < 3 THEN XRule(Mix(sd, 1), "aux", 0) \o " " ELSE ""
       p1 == XRule(Mix(sd, 2), "p", 1)
       p2 == IF c % 7 < 2 THEN " " \o XRule(Mix(sd, 3), "p", 1) ELSE ""
@@ -440,6 +441,22 @@ XProgram(sd) ==
   IN a \o p1 \o p2 \o rr \o k
 XSpecBody(sd) == Pick(sd, <<"q(X)", "q(X) and X > 0", "q(X) and not exists Y (q(Y) and Y < X)", "q(X) and X != n", "q(X) or X = 1",
                             "exists N$i (X = N$i and q(X))", "q(X) and aux(X)", "q(X) and exists Y (Y = X + 1 and q(Y))">>)
+\* arbitrary closed formulas over the public vocabulary (equivalences under either quantifier, nested quantifiers ...)
+XAtomF(sd) ==
+  LET c == Val(sd) % 100
+      v == Pick(Nx(sd), <<"X", "Y", "X", "Z">>)
+  IN IF c < 35 THEN "p(" \o v \o ")" ELSE IF c < 70 THEN "q(" \o v \o ")"
+     ELSE IF c < 85 THEN v \o " " \o Pick(Nx(Nx(sd)), Rels) \o " " \o Pick(Mix(sd, 2), <<"0", "1", "Y", "X + 1", "a", "n">>)
+     ELSE IF c < 93 THEN "p(" \o v \o " + 1)" ELSE "q(0)"
+RECURSIVE XForm(_, _)
+XForm(sd, d) ==
+  LET c == Val(sd) % 100 IN
+  IF d = 0 \/ c < 25 THEN XAtomF(Nx(sd))
+  ELSE IF c < 35 THEN "not " \o XForm(Nx(sd), d - 1)
+  ELSE IF c < 85 THEN "(" \o XForm(Mix(sd, 1), d - 1) \o " " \o Pick(Nx(sd), <<"and", "or", "->", "<->", "<->", "<-">>) \o " " \o XForm(Mix(sd, 2), d - 1) \o ")"
+  ELSE Pick(Nx(sd), <<"exists Y (", "forall Y (", "exists Z (">>) \o XForm(Mix(sd, 3), d - 1) \o ")"
+XClosed(sd) == Pick(sd, <<"forall X Y Z (", "exists X (forall Y Z (", "exists X Y Z (", "forall X (exists Y Z (">>) \o XForm(Nx(sd), 2)
+               \o (IF Val(sd) % 4 \in {1, 3} THEN "))" ELSE ")")
 XDir(sd) == Pick(sd, <<"", "", "", "(forward)", "(backward)", "(universal)">>)
 XSpec(sd) ==
   LET c == Val(sd) % 100
@@ -448,7 +465,8 @@ XSpec(sd) ==
       f3 == IF c % 4 = 0 THEN " assumption" \o XDir(Mix(sd, 4)) \o ": forall X (q(X) -> " \o Pick(Mix(sd, 5), <<"X != 2", "X > 0", "X != a", "X >= n">>) \o ")." ELSE ""
       f4 == IF c % 9 = 0 THEN " spec: forall X Y (p(X) and p(Y) -> X = Y)." ELSE ""
       f5 == IF c % 13 = 0 THEN " spec" \o XDir(Mix(sd, 6)) \o ": forall X (r(X) <-> q(X) and not p(X))." ELSE ""
-  IN f1 \o f2 \o f3 \o f4 \o f5
+      g1 == "spec" \o XDir(Mix(sd, 7)) \o ": " \o XClosed(Mix(sd, 8)) \o "."
+  IN IF c % 5 < 2 THEN g1 \o f2 \o f3 ELSE f1 \o f2 \o f3 \o f4 \o f5
 XUserGuide(sd) ==
   LET c == Val(sd) % 100 IN
   "input: q/1. output: p/1."
@@ -469,8 +487,67 @@ ExtCase(n, sd) ==
      THEN [id |-> "xs" \o ToString(n), task |-> "external", spec |-> XSpec(Mix(sd, 16)), right |-> right, ug |-> ug]
      ELSE [id |-> "xp" \o ToString(n), task |-> "external", left |-> l, right |-> right, ug |-> ug]
 
+\* ---------------------------------------------------------------- abstract programs (C11): all dependency shapes
+\* predicates p/1, p/2 (same name!), q/1, r/0; a rule = head kind x head predicate x up to two signed body literals
+APreds == <<"p(X)", "p(X, Y)", "q(X)", "r">>
+ASigns == <<"", "not ", "not not ">>
+NALit == 1 + Len(APreds) * Len(ASigns)            \* 0 = no literal
+ALit(i) == IF i = 0 THEN "" ELSE ASigns[((i - 1) % 3) + 1] \o APreds[((i - 1) \div 3) + 1]
+NAHead == 1 + 2 * Len(APreds)                     \* 0 = constraint
+AHead(i) == IF i = 0 THEN "" ELSE IF i <= 4 THEN APreds[i] ELSE "{" \o APreds[i - 4] \o "}"
+NARule == NAHead * NALit * NALit
+ARule(i) ==
+  LET h == AHead(i % NAHead)
+      l1 == ALit((i \div NAHead) % NALit)
+      l2 == ALit(i \div (NAHead * NALit))
+      body == IF l1 = "" THEN l2 ELSE IF l2 = "" THEN l1 ELSE l1 \o ", " \o l2
+  IN IF body = "" THEN (IF h = "" THEN ":- q(0)." ELSE h \o ".") ELSE h \o " :- " \o body \o "."
+AbsCase(n) ==
+  LET total == NARule * NARule
+      idx == (Seed0 * 7919 + n * Stride) % total
+      third == (n * 37 + Seed0) % NARule
+      base == ARule(idx % NARule) \o " " \o ARule(idx \div NARule)
+  IN [id |-> "abs" \o ToString(n), prog |-> IF n % 3 = 0 THEN base \o " " \o ARule(third) ELSE base]
+\* long cycles through 4 - 6 predicates, positive except possibly one edge
+CycleCase(n, sd) ==
+  LET len == 3 + (Val(sd) % 4)
+      neg == Val(Nx(sd)) % (2 * len)           \* index of a negated edge, or none if >= len
+      Pn(i) == "c" \o ToString(i % len)
+      rule(i) == Pn(i) \o "(X) :- " \o (IF i = neg THEN Pick(Nx(Nx(sd)), <<"not ", "not not ">>) ELSE "") \o Pn(i + 1) \o "(X), q(X)."
+      RECURSIVE all(_)
+      all(i) == IF i = len THEN "" ELSE rule(i) \o " " \o all(i + 1)
+  IN [id |-> "cyc" \o ToString(n), prog |-> all(0)]
+
+\* tasks that violate (or only seem to violate) exactly one applicability condition (C11)
+BadCase(n, sd) ==
+  LET b == ExtCase(n, sd)
+      k == n % 14
+      isSpec == "spec" \in DOMAIN b
+      AddR(x) == [b EXCEPT !.right = @ \o " " \o x]
+      AddU(x) == [b EXCEPT !.ug = @ \o " " \o x]
+      c == CASE k = 0 -> AddU("output: q/1.")
+             [] k = 1 -> AddR("q(5).")
+             [] k = 2 -> AddU("assumption: forall X (p(X) -> q(X)).")
+             [] k = 3 -> AddU("input: n.")
+             [] k = 4 -> AddU("input: n -> integer.")
+             [] k = 5 -> AddR("p(X) :- p(X + 1), q(X).")
+             [] k = 6 -> AddR("aux(X) :- q(X), not aux(X + 1).")
+             [] k = 7 -> AddR("{aux(X)} :- q(X).")
+             [] k = 8 -> IF isSpec THEN [b EXCEPT !.spec = @ \o " assumption: forall X (p(X) -> q(X))."]
+                         ELSE [b EXCEPT !.left = @ \o " p(X) :- q(X), p(X - 1)."]
+             [] k = 9 -> AddR("aux(X) :- aux(X, X), q(X). aux(X, Y) :- q(X), q(Y), not aux(Y).")
+             [] k = 10 -> AddU("assumption: forall X (aux(X) -> q(X)).")
+             [] k = 11 -> AddR("p(X) :- q(X), not not p(X).")
+             [] k = 12 -> AddR("aux(X) :- q(X), bux(X). bux(X) :- q(X), not not aux(X).")
+             [] k = 13 -> IF isSpec THEN [b EXCEPT !.spec = @ \o " assumption: forall X (q(X) -> not aux(X))."]
+                          ELSE [b EXCEPT !.left = @ \o " q(X) :- p(X), X > 100."]
+  IN [c EXCEPT !.id = "bad" \o ToString(n) \o "k" \o ToString(k)]
+
 Case(n, sd) ==
   CASE Mode = "program" -> ProgramCase(n, sd)
+    [] Mode = "extbad" -> BadCase(n, sd)
+    [] Mode = "absprog" -> AbsCase(n)
+    [] Mode = "cycle" -> CycleCase(n, sd)
     [] Mode = "ext" -> ExtCase(n, sd)
     [] Mode = "pair" -> PairCase(n, sd)
     [] Mode = "theory" -> TheoryCase(n, sd)
